@@ -42,6 +42,9 @@ func c04Input(w *workspace, variant int, r *rand.Rand) {
 	for k := 2; k <= 4; k++ {
 		w.writeCSVBook(sub, bookSpec{Name: "Zone" + strconv.Itoa(k), Sheets: []sheetSpec{listSheet("ZoneConf", 10*k, 10*k+1)}, NoMeta: true})
 	}
+	// two more merger sources whose names differ only in letter case (their order must still be fixed)
+	w.writeCSVBook(sub, bookSpec{Name: "ZoneX", Sheets: []sheetSpec{listSheet("ZoneConf", 91, 92)}, NoMeta: true})
+	w.writeCSVBook(sub, bookSpec{Name: "Zonex", Sheets: []sheetSpec{listSheet("ZoneConf", 93, 94)}, NoMeta: true})
 	// scatter
 	s1 := mapSheet("ScatConf", 1)
 	s1.Meta = map[string]string{"Scatter": "Scat*.csv"}
